@@ -82,7 +82,9 @@ def apply_rewrites(item, rules, log, extra=None):
     if "R-vis" in rules:
         # all extracted items live in one module, so visibility has no run-time meaning; it is dropped
         t = _sub_logged("R-vis", r"\bpub\b(\s*\(\s*(crate|super|self|in [^)]*)\s*\))?[ \t]*", "", t, log, item)
-        t = _sub_logged("R-vis", r"#\[(derive|inline|must_use|non_exhaustive|allow|repr|serde)\b[^\]]*\]", _blank_keep_lines, t, log, item)
+        # derives are dropped, except that `Copy` types stay `Clone, Copy` (move semantics must not change)
+        t = _sub_logged("R-vis", r"#\[derive\(([^\]]*\bCopy\b[^\]]*)\)\]", lambda m: "#[derive(Clone, Copy)]" + "\n" * m.group(0).count("\n"), t, log, item)
+        t = _sub_logged("R-vis", r"#\[(derive|inline|must_use|non_exhaustive|allow|repr|serde)\b(?!\(Clone, Copy\)\])[^\]]*\]", _blank_keep_lines, t, log, item)
     if "R-doc" in rules:
         t = _sub_logged("R-doc", r"(?m)^[ \t]*///.*$", "", t, log, item)
     if "R-range" in rules:
@@ -214,6 +216,10 @@ def weave_fn(item_text, fnpath, sections, origin_file, origin_line):
             ins.append(Insertion(toks[body_open].start, "\n" + s.body + "\n", (s.file, s.line)))
         elif s.kind == "attr":
             ins.append(Insertion(0, s.body + "\n", (s.file, s.line)))
+        elif s.kind == "fnend":
+            # proof hint placed as the last statement of the function body; only sound to use when the body ends
+            # with a statement (unit return), otherwise the weave would not compile
+            ins.append(Insertion(toks[body_close].start, "\n" + s.body + "\n", (s.file, s.line)))
         elif s.kind == "loopend":
             # proof hint placed as the last statement of the k-th loop's body
             if loops is None:
